@@ -3,7 +3,7 @@ package main
 // Models of external callees. Every model here is part of the claim (DESIGN.md 3.4).
 
 import (
-	"fmt"
+	"crypto/sha256"
 	"go/types"
 	"math/big"
 	"strings"
@@ -215,14 +215,12 @@ func (e *Exec) intrinsic(name string, fn *ssa.Function, args []Value) (Value, bo
 
 	// ---- addresses ----
 	case "github.com/cosmos/cosmos-sdk/x/auth/types.NewModuleAddress":
-		// 20 chain-fixed bytes
-		var bs []*Term
-		for i := 0; i < 20; i++ {
-			bs = append(bs, tb.Sym(fmt.Sprintf("MODADDR_%d", i), 8))
-		}
-		a := &Alloc{b: bs, global: e.inInit}
-		l := tb.BV(20, 64)
-		return &SliceV{a: a, len: l, gocap: l, isNil: tb.ff, minLen: 20}, true
+		// exact: address.Module(name) = sha256(name)[:20] (crypto.AddressHash)
+		nm := e.mustString(args[0], "NewModuleAddress")
+		sum := sha256.Sum256([]byte(nm))
+		r := e.constBytes(string(sum[:20]), false)
+		r.a.global = e.inInit
+		return r, true
 	case "github.com/cosmos/cosmos-sdk/types.AccAddressFromBech32":
 		return e.accAddressFromBech32(e.asBytes(args[0], name)), true
 	case "github.com/cosmos/cosmos-sdk/types/bech32.ConvertAndEncode":
